@@ -19,7 +19,7 @@ EXPLANATION = (
     "partitioner, NUMA hints, the shared low-priority queue.")
 ASSUMPTIONS = ["thread_pool_base::create_work is implemented by scheduled_thread_pool only", "hints are honoured by the queue selection decided in C01.R7/C19.R4"]
 THOROUGH_CONFIGS = [["-UNDEBUG", "-DPIKA_DEBUG"]]
-FLOORS = {"C10.R1": 2, "C10.R2": 5, "C10.R3": 4, "C10.R4": 8, "C10.R5": 8, "C10.R6": 4, "C10.R7": 1, "C10.R8": 4, "C10.R9": 4, "C10.R10": 2}
+FLOORS = {"C10.R1": 2, "C10.R2": 5, "C10.R3": 4, "C10.R4": 8, "C10.R5": 8, "C10.R6": 4, "C10.R7": 1, "C10.R8": 4, "C10.R9": 4, "C10.R10": 2, "C10.R11": 2}
 
 SETV = "pika::execution::experimental::set_value"
 SETE = "pika::execution::experimental::set_error"
@@ -58,6 +58,11 @@ def run(rep, tier):
     rep.rule("C10.R3", "K6: schedule_from completes downstream with values only from scheduler_sender_receiver::set_value")
     rep.rule("C10.R4", "K7/K6: static policies mask stealing; cross-queue access only under enable_stealing")
     rep.rule("C10.R6", "K6 (who may advertise a completion scheduler): a sender adaptor forwards its predecessor's environment unchanged only if its receiver completes downstream inside the predecessor's completion; an adaptor whose completion members start another operation (let_value, let_error: the operation returned by the user's callable; schedule_from: the scheduler's) completes wherever that operation completes and must not advertise the predecessor's completion scheduler (bulk's pool customisation trusts it)")
+    rep.rule("C10.R11", "K6 (why a hinted worker may be passed over): on an elastic pool select_active_pu walks the workers starting at the hinted one and takes the first it "
+             "accepts. The hinted worker is passed over only because of its *state* (suspended / going to sleep). That its PU mutex cannot be taken at this instant only "
+             "means another thread is enqueuing for the same worker right now (the mutex is held across create_thread / schedule_thread): structurally, no path leads from "
+             "'try_lock did not succeed' to 'try the next worker' without waiting for that mutex. Otherwise hinted tasks of a pool that does not steal run - and after a "
+             "yield continue - on a neighbouring worker whenever two threads schedule onto one worker at the same time")
     rep.rule("C10.R10", "K7 (evaluated): the tasks thread-pool bulk spawns carry the scheduler's own hint when it has one (with_hint(sched, k) | bulk(..): every chunk task is sent "
              "to worker k) and the hint of 'their' worker only when the scheduler has none")
     rep.rule("C10.R9", "K7 (evaluated with a concrete hint): in create_thread / schedule_thread / schedule_thread_last of the queue schedulers a hint of mode 'thread' "
@@ -534,6 +539,43 @@ def run(rep, tier):
 
 
 
+    # ---- R11: a busy PU mutex is not a reason to move on
+    from engine.kinds import reaches as _re11
+    SAP = facts(rep, lib("threading_base", "src/scheduler_base.cpp"), [r"^pika::threads::detail::scheduler_base::select_active_pu$"])
+    sap = [f for f in SAP.fns if f.qname.endswith("scheduler_base::select_active_pu") and f.parent == -1]
+    if len(sap) != 1:
+        raise AnalysisBroken("scheduler_base::select_active_pu not found")
+    n11 = 0
+    for f in [sap[0]] + [g for g in SAP.fns if g.parent == sap[0].id]:
+        tests = [blk for blk in f.blocks.values() if blk.cond is not None and cond_atoms(blk.cond)[0].endswith(".owns_lock()")]
+        for blk in tests:
+            a, pos = cond_atoms(blk.cond)
+            lockvar = a[:-len(".owns_lock()")]
+            tried = any(e.get("k") == "ctor" and e.get("rec") == "std::unique_lock" and "try_to_lock" in T(e) for e in blk.events) or \
+                any(e.get("k") == "ctor" and e.get("rec") == "std::unique_lock" and "try_to_lock" in T(e) for _, _, e in f.all_events())
+            if not tried:
+                continue
+            n11 += 1
+            notowned = [t for l, t, _ in blk.succ if l == ("false" if pos else "true")]
+            adv = [(b, i, e) for b, i, e in f.all_events() if e.get("k") == "write" and e.get("op") in ("++", "+=") and loop_of_(f, b) is not None and loop_of_(f, blk.id) is not None
+                   and b in loop_of_(f, blk.id)]
+            blocking = set(b for b, i, e in f.all_events() if (e.get("k") == "call" and callee_short(e) == "lock" and e.get("recv") is not None and P(e["recv"]) == lockvar) or
+                           (e.get("k") == "ctor" and e.get("rec") == "std::unique_lock" and "try_to_lock" not in T(e) and "defer_lock" not in T(e) and len(e.get("args", [])) >= 1))
+            moved = None
+            for t in notowned:
+                for b, i, e in adv:
+                    if t not in blocking and (t == b or _re_skip(f, t, b, blocking)):
+                        moved = (b, i, e)
+            if moved:
+                rep.bad("C10.R11", f, loc_of(blk.events[-1]) if blk.events else f.loc, "busy-mutex-skips-pu:" + ("loop" if f.parent == -1 else "retry-lambda"), "select_active_pu goes on to the next "
+                        "worker (%s at %s) on the path where try_to_lock on the hinted worker's PU mutex did not succeed: a mutex that is merely busy - another thread is enqueuing "
+                        "for the same worker - is treated like a suspended PU, and the task is queued on the neighbouring worker" % (P(moved[2]["lhs"]) + moved[2].get("op", ""), loc_of(moved[2]).rsplit("/", 1)[-1]))
+            else:
+                rep.ok("C10.R11", f, "a worker is passed over only after its PU mutex was obtained (its state decides)")
+    if n11 < 2:
+        raise AnalysisBroken("C10.R11: only %d try_to_lock tests found in select_active_pu" % n11)
+
+
 def resume_hint_rules(rep):
     from engine.kinds import expand_locals
     from engine.core import subexprs
@@ -717,3 +759,22 @@ def bulk_hint_rule(rep):
             rep.bad("C10.R10", fn, fn.loc, "bulk-hint:%s" % ("none" if sched_hint == "EMPTY" else "given"), "thread-pool bulk spawns the chunk task of worker 3 with hint %s when the scheduler's own "
                     "hint is %s (expected %s): %s" % (sorted(map(str, got)), sched_hint, want, "a bulk on with_hint(sched, k) of a static pool runs on every worker instead of worker k"
                                                        if sched_hint != "EMPTY" else "the chunk tasks are not sent to their workers"))
+
+
+def loop_of_(fn, b):
+    from engine.kinds import loop_of
+    return loop_of(fn, b)
+
+
+def _re_skip(fn, a, b, avoid):
+    """is block b reachable from block a without entering a block of `avoid`?"""
+    seen, work = set(), [a]
+    while work:
+        x = work.pop()
+        if x == b:
+            return True
+        if x in seen or x in avoid:
+            continue
+        seen.add(x)
+        work += [t for _, t in fn.succs(x)]
+    return False
